@@ -57,6 +57,18 @@ CLAIMED = {
         note="The orthonormality premise of the taps is checked numerically per wavelet; bounds in coverage.",
         technique="TLA+ formal orthogonality law over symbolic Gram operators (TLC) + exact and numeric operator replay",
         design="9/C17"),
+    "C07": dict(
+        text="An op-level acceptor (spec/LinearProg.tla) admits an aten operator only if it is linear and homogeneous in "
+             "its input-dependent operands for fixed constants and never lets an input-dependent value steer indexing or "
+             "Python control flow; TLC proves the rules sound over an abstract value semantics for all operator programs "
+             "up to the bound (LinearProgSound) and checks the channel arithmetic of the grouped convolutions. Every DWT / "
+             "SWT / DTCWT forward, inverse and backward pass is executed under a TorchDispatchMode tracer and the TLC trace "
+             "specification Trace_LinearProg, which infers storage classes from the data flow, must accept every event "
+             "(negative controls - scattering modulus, affine shift, data-dependent branch/index, bilinear product - must be "
+             "rejected). Per-slice operators on identity batches are compared with full (N, C) calls; superposition probes.",
+        note="Linearity is established per recorded execution shape; the operator-name -> category table of the tracer is trusted.",
+        technique="TLA+ op-level linearity acceptor with TLC-checked soundness + code->spec validation of aten execution traces",
+        design="9/C07"),
     "C13": dict(
         text="TLC checks the a-trous stage model (periodic index padding, dilated correlation with the flipped filter) "
              "against swt's definition for every (N, L, dilation), full resolution, circular shift-equivariance as an "
